@@ -6,5 +6,7 @@ CONSTANTS
  MaxTime = 4
  MaxCalls = 6
  WriteInLock = TRUE
+ MaxFails = 1
+ ReleaseOnError = TRUE
  Recheck = TRUE
 CHECK_DEADLOCK FALSE
